@@ -24,6 +24,9 @@ func (f *FunTy) OverLoaded() (key string, fk FunKind) {
 	}
 }
 
+// CanonicalString 字段按名称排序后的渲染, 相等的类型渲染结果相同
+func (t *Type) CanonicalString() string { return sortFields(t).String() }
+
 // sortFields 对象类型相等不考虑字段顺序, 单态函数的查找 key 是渲染后的参数类型,
 // 所以渲染之前需要把对象字段按名称排序, 否则 f({a:num,b:str}) 找不到 f({b:"x",a:1})
 func sortFields(ty *Type) *Type {
